@@ -3739,10 +3739,15 @@ def simplify_assign_immediate_return(source: str) -> str:
         shared_names = {
             name for node in core.walk(scope, (ast.Global, ast.Nonlocal)) for name in node.names
         }
+        # The assignment disappears: nothing but the return statement may read the variable (a
+        # nested function that reads it can still be called after the return).
+        name_load_counts = collections.Counter(
+            name.id for name in core.walk(scope, ast.Name(ctx=ast.Load))
+        )
         names_assigned_only_once = tuple(
             name
             for name, count in name_assign_counts.items()
-            if count == 1 and name not in shared_names
+            if count == 1 and name not in shared_names and name_load_counts[name] == 1
         )
         name_template = ast.Name(id=names_assigned_only_once)
 
